@@ -94,6 +94,8 @@ class Folder:
             return t[:4] + (tuple(self.ev(x, env, bind, depth) for x in t[4]),) + t[5:]
         if k == "cast":
             x = self.ev(t[1], env, bind, depth)
+            if len(t) > 3 and not str(t[3]).startswith("IntToInt") and (x[0] == "ref" or (x[0] == "const" and isinstance(x[1], tuple))):
+                return x        # pointer coercion (&[T; N] -> &[T]): the same constant array
             if _isc(x):
                 return _c(wrap(int(x[1]), t[2]))
             if x[0] == "agg" and x[1] == "adt" and not x[4]:
@@ -186,6 +188,8 @@ class Folder:
             idx = self.ev(t[2], env, bind, depth) if t[2][0] != "local" else None
             if idx is not None and _isc(idx) and base[0] == "const" and isinstance(base[1], tuple):
                 return _c(base[1][int(idx[1])])
+            if idx is not None and _isc(idx) and base[0] == "agg" and base[1] == "array" and 0 <= int(idx[1]) < len(base[4]):
+                return self.ev(base[4][int(idx[1])], env, bind, depth) if not _isc(base[4][int(idx[1])]) else base[4][int(idx[1])]
             raise Unknown("index " + pp(t))
         raise Unknown(k + " " + pp(t))
 
@@ -277,7 +281,37 @@ def _unwrap_or(self, args):
     raise Unknown("unwrap_or of a non-constant")
 
 
+def _const_seq(a):
+    """the python tuple behind (a reference to / an unsizing cast of) a constant array"""
+    n = 0
+    while isinstance(a, tuple) and a and a[0] in ("ref", "cast", "as") and n < 6:
+        a = a[1]
+        n += 1
+    if isinstance(a, tuple) and a and a[0] == "const" and isinstance(a[1], tuple):
+        return a[1]
+    raise Unknown("slice model on a non-constant slice")
+
+
+def _slice_len(self, args):
+    return _c(len(_const_seq(args[0])))
+
+
+def _slice_is_empty(self, args):
+    return _c(len(_const_seq(args[0])) == 0)
+
+
+def _slice_get(self, args):
+    seq = _const_seq(args[0])
+    i = _ints(args[1:2])[0]
+    if 0 <= i < len(seq):
+        return ("agg", "adt", "std::option::Option", "Some", (("ref", _c(seq[i])),), 1)
+    return ("agg", "adt", "std::option::Option", "None", (), 0)
+
+
 STD_MODELS = {
+    "core::slice::<impl [T]>::len": _slice_len,
+    "core::slice::<impl [T]>::is_empty": _slice_is_empty,
+    "core::slice::<impl [T]>::get": _slice_get,
     "std::num::NonZero::<T>::new_unchecked": _ident,
     "std::num::NonZero::<T>::get": _ident,
     "std::option::Option::<T>::unwrap_or": _unwrap_or,
